@@ -568,9 +568,35 @@ class Context:
             if len(args) < 2:
                 return UNDEFINED
             obj, prop = args[0], args[1]
+            prop_name = to_string(prop)
+
+            def element(value, fixed=False, length=None):
+                # an element of an array / typed array / string, or its length
+                descriptor = JSObject()
+                descriptor.set("value", value)
+                descriptor.set("writable", not fixed)
+                descriptor.set("enumerable", length is None)
+                descriptor.set("configurable", not fixed and length is None)
+                return descriptor
+
+            from .values import JSTypedArray
+
+            if isinstance(obj, (JSArray, JSTypedArray, str)):
+                size = (
+                    len(obj._elements)
+                    if isinstance(obj, JSArray)
+                    else (len(obj) if isinstance(obj, str) else obj.length)
+                )
+                if prop_name == "length" and not isinstance(obj, JSTypedArray):
+                    return element(size, fixed=isinstance(obj, str), length=True)
+                if prop_name.isdigit() and prop_name.isascii() and str(int(prop_name)) == prop_name:
+                    if int(prop_name) < size:
+                        return element(
+                            read(obj, prop_name), fixed=isinstance(obj, str)
+                        )
+                    return UNDEFINED
             if not isinstance(obj, JSObject):
                 return UNDEFINED
-            prop_name = to_string(prop)
 
             if (
                 not obj.has(prop_name)
